@@ -164,11 +164,16 @@ CHECKS['C06'] = {
 }
 CHECKS['C07'] = {
     'level': 'other',
-    'technique': 'bounded stand-in: run-time contract of the real process_lines with a local stub network, exhaustive over short line lists, batch sizes, modes, orders and call histories',
-    'text': ('BOUNDED: at every input position the transcription, the logits inside the frame window and the window equal those computed from that image alone, for lists of '
+    'technique': ('hybrid: deductive proof (own VC generator + z3) of the index bookkeeping of process_lines (sort permutation, batching loop, scatter, frame window) '
+                  'for lists of any length with the network call replaced by its assumed contract; bounded run-time contract of the real process_lines with a local stub '
+                  'network, exhaustive over short line lists, batch sizes, modes, orders and call histories'),
+    'text': ('PROVED for all line lists / widths / batch sizes (CTC configuration, dense logits and no-logits mode): every input position receives the transcription, logits '
+             'and frame window [pad//sub, min((pad+w_i)//sub, frames_i)] of its own image; no line is skipped or processed twice.  Assumed: run_ocr\'s i-th output depends on '
+             'the i-th image only; four statements (shape check, batch assembly, over-long crop, network call) are replaced by their assumed effect.  '
+             'BOUNDED: at every input position the transcription, the logits inside the frame window and the window equal those computed from that image alone, for lists of '
              '0..3 widths from {1,31,32,33,100,500,4000} x batch sizes x 5 modes, permutations of longer lists, and calls after other calls on the same engine; window = '
              '[pad/4, (pad+w)/4) clipped to existing frames; sparse storage keeps exactly logits with posterior >= 1e-4.'),
-    'note': 'Trusted: the stub network represents "any local network"; transformer splitting/merging is C15; no unbounded scatter proof yet.',
+    'note': 'Trusted: pyvc; the stub network represents "any local network"; batch assembly, sparse storage, tight crop and the transformer path (C15) are bounded only.',
 }
 
 CHECKS['C12'] = {
